@@ -4,7 +4,8 @@ import json
 from check import Result
 
 PROP = "C05"
-TARGETS = ["NetqasmVerif.Props.C05", "NetqasmVerif.Props.C05Asm", "NetqasmVerif.Props.C05Chain"]
+TARGETS = ["NetqasmVerif.Props.C05", "NetqasmVerif.Props.C05Asm", "NetqasmVerif.Props.C05Chain",
+           "NetqasmVerif.Props.C05Chain2"]
 M = "NetqasmVerif.Props.C05"
 THEOREMS = [(M, "NQ.C05." + n) for n in [
     "emit_correct", "emit_correct_op", "segment_correct", "array_init_correct", "labels_fresh",
@@ -16,7 +17,15 @@ THEOREMS = [(M, "NQ.C05." + n) for n in [
     ("NetqasmVerif.Props.C05Asm", "NQ.C05.emit_correct_assembled_partial")] + [
     ("NetqasmVerif.Props.C05Chain", "NQ.C05." + n) for n in [
         "semBridge_rel", "flush_end_to_end", "emit_correct_end_to_end", "nonvacuous_chain",
-        "nonvacuous_chain_run"]]
+        "nonvacuous_chain_run"]] + [
+    ("NetqasmVerif.Lemmas.SdkEmitted", "NQ.Sdk." + n) for n in [
+        "emitted_nameInj", "emitted_regsInRange", "emitted_labelTargets", "emitted_qclosed"]] + [
+    ("NetqasmVerif.Lemmas.SdkQSafe", "NQ.Bridge.qsafe_of_closed"),
+    ("NetqasmVerif.Lemmas.SdkQSafe", "NQ.Bridge.unit_free_after")] + [
+    ("NetqasmVerif.Props.C05Chain2", "NQ.C05." + n) for n in [
+        "flush_on_exec", "emit_correct_end_to_end_closed", "scratch_dead_across_flushes", "program_on_exec",
+        "program_on_exec_views",
+        "nonvacuous_program_on_exec"]]
 TRANSLATORS = []
 LEVEL_TEXT = (
     "Lean: `emit_correct` — compiler correctness of the SDK builder model: for EVERY host program over the "
@@ -38,13 +47,21 @@ LEVEL_TEXT = (
     "Executor on the emitted programs. Oracle: real SDK -> bytes -> real Executor vs the direct interpreter: trace, "
     "controller arrays/registers and every Array/Future/RegFuture handle read on the host after EVERY flush.")
 LEVEL_NOTE = (
-    "The theorem is about the model `emit` and about ProtoExec; the step from proto-commands to assembled "
-    "instructions is C03's `assemble_simulates` — composed empirically by the ProtoExec-vs-Executor stream, the formal "
-    "bridge between the two label-level semantics is not proved (partial on that point only). new_register()/"
-    "measure(store_array=False) are top-level statements in the theorem (TopOK). Open finding F41 (host handles "
-    "keep stale values across flushes) is host-level and outside the label-level model; F42 (new_register() "
-    "registers clobbered by a later subroutine's scratch registers) is fixed on the SDK side (reserved registers "
-    "passed to the assembler); shared-memory arrays alias the controller's arrays (F25).")
+    "`emit_correct` is about the model `emit` and about ProtoExec. The step down to the executor model is the chain "
+    "Props/C05Chain.lean (ProtoExec -> C03 source semantics -> assembled subroutine -> `Exec.run`, one flush) and "
+    "Props/C05Chain2.lean: `program_on_exec` runs ALL assembled subroutines in order on ONE `Exec` state and obtains "
+    "HostSem's trace / oracle / arrays / handle registers. What the first part assumed of each subroutine is now "
+    "derived from the builder model (Lemmas/SdkEmitted.lean: `emitted_nameInj`, `emitted_regsInRange`, "
+    "`emitted_labelTargets`), the executor passing its quantum / allocation instructions (`QSafe`) is proved for the "
+    "one-qubit vocabulary (Lemmas/SdkQSafe.lean: closed blocks set/qalloc/init/gates/meas/qfree, virtual qubit 0 free "
+    "at the start), and the step between flushes is `scratch_dead_across_flushes` (live handles sit in active "
+    "registers, active registers are reserved for the assembler, reserved registers are never scratch). Left as "
+    "named hypotheses: `AsmAll` (each subroutine assembles, with the active registers reserved — the reserved set is "
+    "compared with the real builder's on every executed run — and reads as executor instructions), the initial "
+    "controller state (application registered and empty, unit module non-empty, qubit 0 free), and the shared-memory "
+    "ARRAY view (the executor shares the list object, F25). new_register()/measure(store_array=False) are top-level "
+    "statements in the theorem (TopOK). Open finding F41 (host handles keep stale values across flushes) is "
+    "host-level and outside the label-level model; F42 is fixed on the SDK side (reserved registers).")
 TECHNIQUE = ("Lean 4 proof (verified-compiler style: simulation relation, structural induction over the host AST, "
              "induction over flush segments) + syntactic differential correspondence with the real SDK builder + "
              "semantic cross-checks of both semantics + model-free end-to-end oracle")
